@@ -27,7 +27,6 @@ import WzVerif.Model.Cookie
 import WzVerif.Lemmas.PyFns_Prelude
 import WzVerif.Lemmas.PyFns_HttpList
 import WzVerif.Lemmas.PyFnsEq_HttpDict
-import WzVerif.Lemmas.PyFnsEq_Conv
 namespace Wz.PyFnsEq.Cookie
 open Wz Wz.Pre Wz.PyFnsHttp
 open Gen.PyFns_Cookie Wz.PyFnsEq.HttpDict
@@ -361,7 +360,7 @@ theorem tailSpec_eq (key value : Str) (m : Option Int) (e p d : Option Str) (sec
     cases Cookie.dumpValue value with
     | error x => rfl
     | ok hv =>
-      simp [Conv.join_eq_intercalate, sep, hs, parts, parts2, parts3, parts4, parts5, parts6, parts7, parts8,
+      simp [Pre.join_eq_intercalate', sep, hs, parts, parts2, parts3, parts4, parts5, parts6, parts7, parts8,
         Cookie.attrParts, Pre.utf8ThenLatin1, Bool.or_comm]
 
 /-- the `safe="%!$&'()*+,/:=@"` literal of the `quote(path, …)` call -/
